@@ -538,6 +538,10 @@ def generated_frame(rep):
             parts = parts[-2:]
             parts = [re.sub(r"EmbossReservedVirtual\w+View", "VirtualView", p) for p in parts]
             parts = [re.sub(r"Generic\w+View", "StructView", p) for p in parts]
+            if parts[0] == "VirtualView" and parts[-1] in ("CouldWriteValue", "TryToWrite", "Write", "UpdateFromTextStream"):
+                # the generated TryToWrite, Write and CouldWriteValue each evaluate the same inverse-transform
+                # expression (and text input is inlined into TryToWrite): one mechanism, whichever frame reports it
+                return "VirtualView::<write path>"
             return "::".join(parts)
     return "?"
 
